@@ -165,6 +165,8 @@ type Exec struct {
 	FeasQ       int
 	FeasSecs    float64
 	FeasUnknown int
+	feasQ0      int
+	feasS0      float64
 	Deadline    time.Time
 	initHeap    *Heap
 }
@@ -251,6 +253,13 @@ func (ex *Exec) feasibleSt(st *State, cond *term.Term, useSolver bool) bool {
 		return false
 	}
 	return ex.solverFeasible(term.And(st.G, cond), useSolver)
+}
+
+// slowFeasibility reports that pruning queries have become expensive in this run (they only save work; a branch
+// that is not pruned is still decided at verification-condition time).
+func (ex *Exec) slowFeasibility() bool {
+	n := ex.FeasQ - ex.feasQ0
+	return n >= 20 && (ex.FeasSecs-ex.feasS0)/float64(n) > 0.25
 }
 
 func (ex *Exec) solverFeasible(g *term.Term, useSolver bool) bool {
@@ -881,7 +890,7 @@ func (ex *Exec) runAt(fr *frame, st *State, b *ssa.BasicBlock, idx int, stop *ss
 func (ex *Exec) branch(fr *frame, st *State, b *ssa.BasicBlock, c *term.Term, stop *ssa.BasicBlock) []*State {
 	J := fr.ipd[b]
 	visits := st.F.Unroll[b]
-	useSolver := fr.loops[b] || visits >= 8
+	useSolver := fr.loops[b] || (visits >= 8 && !ex.slowFeasibility())
 	st.facts()
 	conds := [2]*term.Term{c, term.Not(c)}
 	var feas [2]bool
